@@ -19,7 +19,9 @@ def find_builder(ctx):
     if len(sb) != 1:
         raise FailClosed("pub fn streaming_body not found uniquely")
     fn = sb[0]["path"]
-    outs = [o for o in ctx.px(fn) if o.kind == "return"]
+    # (a private constructor the public function delegates to is expanded; the negotiation function stays a call)
+    never = tuple(f["path"] for f in ctx.facts.fns.values() if f["path"].split("::")[-1] == "should_gzip")
+    outs = [o for o in ctx.px(fn, inline=helper_inline(ctx, never=never), key="builder-ctor") if o.kind == "return"]
     if not outs or not all(is_agg(o.value) for o in outs):
         raise FailClosed("streaming_body does not return a builder aggregate on every path")
     v = outs[0].value
@@ -411,7 +413,17 @@ def writer_delegation(ctx, rule):
                 continue
             seen.add(var)
             r = calls[0]["result"]
-            if v != r:
+
+            def same_result(v_, r_):
+                # the inner result itself, or the same variant rebuilt around the same payload (`r.map_err(|e| { ..; e })`)
+                if v_ == r_:
+                    return True
+                iv_ = o.cons.variant_of(r_)
+                if is_agg(v_) and v_[3] == iv_ and iv_ in ("Ok", "Err"):
+                    pl_ = agg_get(v_, "0")
+                    return pl_ == ("payload", r_, iv_, "0") or (iv_ == "Ok" and is_agg(pl_) and pl_[1] == "tuple" and not pl_[4])
+                return False
+            if not same_result(v, r):
                 ctx.violation(rule, "%s|%s|%s|result" % (rule, meth, var), "%s does not return the inner result unchanged" % meth)
                 continue
             inner_v = o.cons.variant_of(r)
